@@ -2,6 +2,7 @@ import Mdns.Model.Cache
 import Mdns.Lemmas.Sched
 import Mdns.Props.C17
 import Mdns.Lemmas.ClientEvolve
+import Mdns.Lemmas.ClientDistinct
 /-
   C20  State stays bounded: expired data is forgotten.
 
@@ -377,6 +378,70 @@ example :
        (2500, [], []), (3702000, [], [])]).1
     (cachedTotal s', s'.timers, s'.nextIpCheck, s'.queriers.length, s'.reruns.length) =
       (0, [3707000], 3707000, 0, 0) := by decide
+
+/-! ### the size of the cache -/
+
+/-- the identity (owner, type, class, cache-flush bit, RDATA incl. the receiving interface of an
+    address) under which a delivered record is cached -/
+def deliveryId (d : Delivery) : BList × Nat × Nat × Bool × RData :=
+  idOf ⟨ofWire d.ifName d.ifIdx d.time d.wire, d.ifName, d.ifIdx⟩
+
+/-- the distinct records among those delivered whose lifetime has not ended at `T` -/
+def liveIds (hist : List Delivery) (T : Nat) : List (BList × Nat × Nat × Bool × RData) :=
+  ((hist.filter fun d => decide (T < lifeEnd d)).map deliveryId).eraseDups
+
+theorem closed_run {P : Cache → Prop} (hcl : ∀ now, CacheOpsClosed P now) :
+    ∀ (h : List (Nat × List Packet × List Command)) (s : State), P s.cache → P (run s h).1.cache
+  | [], _, hp => hp
+  | (now, pkts, cmds) :: rest, s, hp => by
+    simp only [run]
+    exact closed_run hcl rest _ (closed_iter (hcl now) s pkts cmds hp)
+
+theorem cachedTotal_eq (s : State) : cachedTotal s = (cacheEntries s.cache).length := by
+  simp only [cachedTotal, metricsOf, tableCount_eq, cacheEntries, List.length_append]
+
+/-- **cache_size_bounded (whole histories).**  Start the daemon and run ANY history: the number
+    of cached records - the sum of the five cache counters of `get_metrics` - is at most the
+    number of DISTINCT records (owner, type, class, cache-flush bit, RDATA, and for an address
+    the receiving interface) among those delivered to the daemon whose lifetime has not ended
+    at the time of the last iteration.  It does not grow with the number of times a record is
+    repeated, nor with running time. -/
+theorem cache_size_bounded (t0 : Nat) (intfs : List Intf) (h : List (Nat × List Packet × List Command)) :
+    cachedTotal (run (init t0 intfs) h).1 ≤ (liveIds (C03.histOf (init t0 intfs) h) (C17.lastTime 0 h)).length := by
+  have hprov := C17.run_prov h t0 intfs
+  have hkeys : KeysNodup (run (init t0 intfs) h).1.cache := closed_run keysNodup_closed h _ keysNodup_empty
+  have hdist : ListsDistinct (run (init t0 intfs) h).1.cache := closed_run listsDistinct_closed h _ listsDistinct_empty
+  have hnd := cache_ids_nodup _ _ hprov hkeys hdist
+  rw [cachedTotal_eq, ← List.length_map (f := idOf)]
+  apply List.Nodup.length_le_of_subset hnd
+  intro x hx
+  obtain ⟨e, he, rfl⟩ := List.mem_map.mp hx
+  have hmem : ∃ sl : Slot, ∃ p ∈ (run (init t0 intfs) h).1.cache.table sl, e ∈ p.2 := by
+    simp only [cacheEntries, List.mem_append, mem_tableEntries] at he
+    rcases he with (((he | he) | he) | he) | he
+    · exact ⟨.ptr, he⟩
+    · exact ⟨.srv, he⟩
+    · exact ⟨.txt, he⟩
+    · exact ⟨.addr, he⟩
+    · exact ⟨.nsec, he⟩
+  obtain ⟨sl, p, hp, hep⟩ := hmem
+  obtain ⟨_, d, hd, j, hlive⟩ := cache_bounded t0 intfs h sl p hp e hep
+  simp only [liveIds, List.mem_eraseDups, List.mem_map, List.mem_filter, decide_eq_true_eq]
+  refine ⟨d, ⟨hd, hlive⟩, ?_⟩
+  obtain ⟨j1, j2, j3, j4, j5, _⟩ := j
+  simp only [deliveryId, idOf, Prod.mk.injEq]
+  exact ⟨j1.symm, j2.symm, j3.symm, j4.symm, j5.symm⟩
+
+/-- the same announcement (PTR, SRV, TXT, A) received twice: four cached records, four distinct
+    live delivered records (eight deliveries) -/
+example :
+    (cachedTotal (run (init 1000 [C03.eth0])
+        [(1000, [], [.browse C03.ty 1 false]), (1500, [C03.announce], []), (1600, [C03.announce], [])]).1,
+     (liveIds (C03.histOf (init 1000 [C03.eth0])
+        [(1000, [], [.browse C03.ty 1 false]), (1500, [C03.announce], []), (1600, [C03.announce], [])]) 1600).length,
+     (C03.histOf (init 1000 [C03.eth0])
+        [(1000, [], [.browse C03.ty 1 false]), (1500, [C03.announce], []), (1600, [C03.announce], [])]).length) =
+      (4, 4, 8) := by decide
 
 end ClientModel
 
